@@ -1,5 +1,6 @@
 """C25 — Coroutine-local storage is private, map-like, and released with the coroutine (structural clauses)."""
 from rules.common import start
+from rules import wave3
 from rules import wave2
 from rules import coro
 
@@ -16,4 +17,6 @@ def run(tier):
     f = fx["core/default"]
     wave2.local_deleters_rule(run, f, "C25-DELETERS")
     wave2.current_ends_rule(run, f, "C25-CURRENT-ENDS")
+    # clauses added for the wave-2 seeds (rules/wave2.py; DESIGN 12a)
+    wave3.local_get_consults_map_rule(run, f, "C25-GET-CONSULTS-MAP")
     return run.finish()
